@@ -1123,4 +1123,55 @@ example : ((fun f : ℝ => f) 0 ^ 2 + 1) * ((fun f : ℝ => f) 1 - (fun f : ℝ 
     ∧ (0:ℝ) ∈ [(0:ℝ), 1, 2] := by
   refine ⟨by norm_num, by simp⟩
 
+/-- the same function of frequency for every shape of `FixedDiodeModel` -/
+theorem psdOr_fixed_diode_shapes (m : Mdl ℝ) (hh : m.o.hydro = false) (fc D fd al nan : ℝ) :
+    m.psdOr (.fixed (some fd) (some al)) fc D [] nan = (fun f => lorentzDiodePsd f fc D fd al) ∧
+    m.psdOr (.fixed (some fd) none) fc D [al] nan = (fun f => lorentzDiodePsd f fc D fd al) ∧
+    m.psdOr (.fixed none (some al)) fc D [fd] nan = (fun f => lorentzDiodePsd f fc D fd al) ∧
+    m.psdOr (.fixed none none) fc D [fd, al] nan = (fun f => lorentzDiodePsd f fc D fd al) := by
+  refine ⟨?_, ?_, ?_, ?_⟩ <;> funext f
+  · simp [Mdl.psdOr, (spectrum_model_lorentz_diode m hh f fc D fd al).2.1]
+  · simp [Mdl.psdOr, (spectrum_model_lorentz_diode m hh f fc D fd al).2.2.1]
+  · simp [Mdl.psdOr, (spectrum_model_lorentz_diode m hh f fc D fd al).2.2.2.1]
+  · simp [Mdl.psdOr, (spectrum_model_lorentz_diode m hh f fc D fd al).2.2.2.2.1]
+example : (build oBulk).o.hydro = false := rfl
+
+/-- CAPSTONE, in the words of the property: a block-averaged spectrum has a strictly increasing
+    positive frequency axis; if it has at least four bins, was generated (noise-free) by a
+    non-hydrodynamic model with `(f_c, D, f_diode, α)` in the conditioning box
+    (`0 < f_c ≤ 0.3·f_diode`, `0 ≤ α ≤ 0.8`, `D > 0`), then within that box the objective of the fit
+    is zero at the generating parameters and at no others -/
+theorem fit_recovery_in_conditioning_box (m : Mdl ℝ) (hh : m.o.hydro = false) (fs : List ℝ)
+    (n fc D fd al fc' D' fd' al' nan : ℝ) (hn : 0 < n)
+    (hsort : fs.Pairwise (· < ·)) (hpos : ∀ f ∈ fs, 0 < f) (hlen : 4 ≤ fs.length)
+    (hfc : 0 < fc) (hbox : fc ≤ 0.3 * fd) (hD : 0 < D) (hal : 0 ≤ al) (hal1 : al ≤ 0.8)
+    (hfc' : 0 < fc') (hbox' : fc' ≤ 0.3 * fd') (hal' : 0 ≤ al') :
+    chi2 (m.psdOr .diode fc D [fd, al] nan) n fs (fs.map (m.psdOr .diode fc D [fd, al] nan)) = 0 ∧
+    (chi2 (m.psdOr .diode fc' D' [fd', al'] nan) n fs (fs.map (m.psdOr .diode fc D [fd, al] nan)) = 0 →
+      fc' = fc ∧ D' = D ∧ fd' = fd ∧ al' = al) := by
+  have hfd : fc < fd := by
+    have : 0 < fd := by nlinarith
+    nlinarith
+  have hfd' : fc' < fd' := by
+    have : 0 < fd' := by nlinarith
+    nlinarith
+  have hlt := List.pairwise_iff_getElem.mp hsort
+  have sq_ne : ∀ i j (hi : i < fs.length) (hj : j < fs.length), i < j → fs[i] ^ 2 ≠ fs[j] ^ 2 := by
+    intro i j hi hj hij
+    have h1 := hlt i j hi hj hij
+    have h0 := hpos _ (List.getElem_mem hi)
+    have : fs[i] ^ 2 < fs[j] ^ 2 := pow_lt_pow_left₀ h1 h0.le two_ne_zero
+    exact this.ne
+  exact fit_recovery_unique_model m hh fs n fc D fd al fc' D' fd' al' fs[0] fs[1] fs[2] fs[3] nan hn
+    hfc hfd hD hal (by norm_num at hal1 ⊢; linarith) hfc' hfd' hal'
+    (List.getElem_mem _) (List.getElem_mem _) (List.getElem_mem _) (List.getElem_mem _)
+    (sq_ne 0 1 _ _ (by decide)) (sq_ne 0 2 _ _ (by decide)) (sq_ne 0 3 _ _ (by decide))
+    (sq_ne 1 2 _ _ (by decide)) (sq_ne 1 3 _ _ (by decide)) (sq_ne 2 3 _ _ (by decide))
+example : ([1, 2, 3, 4] : List ℝ).Pairwise (· < ·) ∧ (∀ f ∈ ([1, 2, 3, 4] : List ℝ), 0 < f) ∧
+    4 ≤ ([1, 2, 3, 4] : List ℝ).length ∧ (1:ℝ) ≤ 0.3 * 10 ∧ (0.5:ℝ) ≤ 0.8 := by
+  refine ⟨by simp [List.pairwise_cons]; norm_num, ?_, by decide, by norm_num, by norm_num⟩
+  intro f hf
+  simp at hf
+  rcases hf with rfl | rfl | rfl | rfl <;> norm_num
+
 end Verif.C11
